@@ -565,6 +565,9 @@ func runC13(args []string) error {
 	if err != nil {
 		return err
 	}
+	if len(res.harness) > 0 {
+		return fmt.Errorf("batch worker died in harness code (not in the code under test): %v", res.harness)
+	}
 	lg, err := tracelog.Create(c.out)
 	if err != nil {
 		return err
